@@ -11,7 +11,7 @@ JOBS = 2
 RERUNS = {'quick': 30, 'thorough': 200}
 MAX_HANDLE = 40
 FIXTURE_KIND = 'abixml'
-QUICK_N = 2600
+QUICK_N = 4000
 CPU_LIMIT = 10
 DEP_EXEMPT = False
 LEGAL_READS = ('abidiff-dmg-intact', 'abilint')
